@@ -3,7 +3,10 @@ package models
 import (
 	"crypto/cipher"
 	"crypto/elliptic"
+	"io"
 	"math/big"
+
+	"github.com/cloudflare/pat-go/ecdsa"
 
 	"github.com/cloudflare/circl/expander"
 )
@@ -46,19 +49,111 @@ func newOpaque(mag []byte) *big.Int {
 	return z
 }
 
+// k*G for given k: an arbitrary point; which scalar it belongs to is remembered
+type sbmEntry struct{ k, x, y []byte }
+
+var sbmLog []sbmEntry
+
 func (c MCurveP) ScalarBaseMult(k []byte) (*big.Int, *big.Int) {
-	return newOpaque(vFresh("ec_sbm_x", c.byteLen())), newOpaque(vFresh("ec_sbm_y", c.byteLen()))
+	// a function of the scalar bytes (not injective: k and k + n give the same point)
+	x, y := newOpaque(vUFN("ec_sbm_x_"+c.name, c.byteLen(), k)), newOpaque(vUFN("ec_sbm_y_"+c.name, c.byteLen(), k))
+	sbmLog = append(sbmLog, sbmEntry{k: clone(k), x: bigMag[x], y: bigMag[y]})
+	return x, y
 }
+// Points are tracked as a base point times a multiset of at most three scalar factors (the same
+// shape as the Ed25519 model): scalar multiplication is a commutative action of the scalars, and
+// multiplying by ModInverse(f, n) of a reduced f removes the factor f again. A product with one
+// factor keeps the injective symbol ec_sm_{x,y} (a free action).
+type ecPt struct {
+	bx, by   []byte
+	bxo, byo bool // opaque flags of the base coordinates
+	f1, f2   []byte
+	f3       []byte
+	nf       int
+}
+
+type ecRegEntry struct {
+	x, y []byte
+	pt   *ecPt
+}
+
+var ecReg []ecRegEntry
+
+func ecLookup(x, y *big.Int) *ecPt {
+	for i := range ecReg {
+		if vSameTerm(ecReg[i].x, bigMag[x]) && vSameTerm(ecReg[i].y, bigMag[y]) {
+			return ecReg[i].pt
+		}
+	}
+	return &ecPt{bx: bigMag[x], by: bigMag[y], bxo: bigOpaque[x], byo: bigOpaque[y]}
+}
+
+func (c MCurveP) isInverse(a, b []byte) bool {
+	n := hexBytes(c.n)
+	return vSameTerm(a, vUF("perm_big_inv", len(n), padW(b), padW(n))) || vSameTerm(b, vUF("perm_big_inv", len(n), padW(a), padW(n)))
+}
+
+func (c MCurveP) ecMul(p *ecPt, k []byte) *ecPt {
+	if p.nf >= 1 && c.isInverse(p.f1, k) {
+		return &ecPt{bx: p.bx, by: p.by, bxo: p.bxo, byo: p.byo, f1: p.f2, f2: p.f3, nf: p.nf - 1}
+	}
+	if p.nf >= 2 && c.isInverse(p.f2, k) {
+		return &ecPt{bx: p.bx, by: p.by, bxo: p.bxo, byo: p.byo, f1: p.f1, f2: p.f3, nf: p.nf - 1}
+	}
+	if p.nf >= 3 && c.isInverse(p.f3, k) {
+		return &ecPt{bx: p.bx, by: p.by, bxo: p.bxo, byo: p.byo, f1: p.f1, f2: p.f2, nf: 2}
+	}
+	switch p.nf {
+	case 0:
+		return &ecPt{bx: p.bx, by: p.by, bxo: p.bxo, byo: p.byo, f1: k, nf: 1}
+	case 1:
+		return &ecPt{bx: p.bx, by: p.by, bxo: p.bxo, byo: p.byo, f1: p.f1, f2: k, nf: 2}
+	case 2:
+		return &ecPt{bx: p.bx, by: p.by, bxo: p.bxo, byo: p.byo, f1: p.f1, f2: p.f2, f3: k, nf: 3}
+	}
+	panic("ec model: more than three factors")
+}
+
+func (c MCurveP) ecCoord(p *ecPt, which string) []byte {
+	n := c.byteLen()
+	switch p.nf {
+	case 1:
+		return vUF("ec_sm_"+which+"_"+c.name, n, p.bx, p.by, p.f1)
+	case 2:
+		v := vUFN("ec_sm2_"+which+"_"+c.name, n, p.bx, p.by, p.f1, p.f2)
+		vAssume(vBytesEq(v, vUFN("ec_sm2_"+which+"_"+c.name, n, p.bx, p.by, p.f2, p.f1)))
+		return v
+	}
+	s := "ec_sm3_" + which + "_" + c.name
+	v := vUFN(s, n, p.bx, p.by, p.f1, p.f2, p.f3)
+	vAssume(vBytesEq(v, vUFN(s, n, p.bx, p.by, p.f1, p.f3, p.f2)))
+	vAssume(vBytesEq(v, vUFN(s, n, p.bx, p.by, p.f2, p.f1, p.f3)))
+	vAssume(vBytesEq(v, vUFN(s, n, p.bx, p.by, p.f2, p.f3, p.f1)))
+	vAssume(vBytesEq(v, vUFN(s, n, p.bx, p.by, p.f3, p.f1, p.f2)))
+	vAssume(vBytesEq(v, vUFN(s, n, p.bx, p.by, p.f3, p.f2, p.f1)))
+	return v
+}
+
 func (c MCurveP) ScalarMult(x, y *big.Int, k []byte) (*big.Int, *big.Int) {
 	mustBig(x)
 	mustBig(y)
-	// a free group action: injective in the scalar bytes (and in the point)
-	return newOpaque(vUF("ec_sm_x_"+c.name, c.byteLen(), bigMag[x], bigMag[y], k)), newOpaque(vUF("ec_sm_y_"+c.name, c.byteLen(), bigMag[x], bigMag[y], k))
+	p := c.ecMul(ecLookup(x, y), clone(k))
+	if p.nf == 0 {
+		// every factor cancelled: the base point itself
+		rx, ry := newBig(p.bx), newBig(p.by)
+		bigOpaque[rx], bigOpaque[ry] = p.bxo, p.byo
+		return rx, ry
+	}
+	rx, ry := newOpaque(c.ecCoord(p, "x")), newOpaque(c.ecCoord(p, "y"))
+	ecReg = append(ecReg, ecRegEntry{x: bigMag[rx], y: bigMag[ry], pt: p})
+	return rx, ry
 }
 func (c MCurveP) Add(x1, y1, x2, y2 *big.Int) (*big.Int, *big.Int) {
 	mustBig(x1)
+	mustBig(y1)
 	mustBig(x2)
-	return newOpaque(vFresh("ec_add_x", c.byteLen())), newOpaque(vFresh("ec_add_y", c.byteLen()))
+	mustBig(y2)
+	return newOpaque(vUFN("ec_add_x_"+c.name, c.byteLen(), bigMag[x1], bigMag[y1], bigMag[x2], bigMag[y2])), newOpaque(vUFN("ec_add_y_"+c.name, c.byteLen(), bigMag[x1], bigMag[y1], bigMag[x2], bigMag[y2]))
 }
 
 func curveP(name string, bits int, n string) elliptic.Curve {
@@ -92,10 +187,34 @@ var bigOpaque = map[*big.Int]bool{}
 var zerosUsed int
 var bigZeroKnown = map[*big.Int]int{}
 
+// the answer for one value is the same whichever integer object carries it
+type zeroMemoEntry struct {
+	mag []byte
+	ans int
+}
+
+var zeroMemo []zeroMemoEntry
+
 func opaque2(op string, n int, x, y *big.Int) []byte {
 	mustBig(x)
 	mustBig(y)
-	return vFresh("big_"+op, n) // an arbitrary value: no claim depends on the result of this arithmetic
+	// an uninterpreted function of the operands' magnitudes: no claim depends on its value, but
+	// two executions of the same arithmetic on the same operands agree
+	return vUFN("big_"+op, n, padW(bigMag[x]), padW(bigMag[y]))
+}
+
+// Arguments of the uninterpreted arithmetic are magnitudes left-padded to one width, so that the
+// same integer gives the same argument whatever the length of the byte string that carries it
+const bigW = 140
+const mulW = 136
+
+func padW(m []byte) []byte {
+	if len(m) >= bigW {
+		return m
+	}
+	out := make([]byte, bigW)
+	copy(out[bigW-len(m):], m)
+	return out
 }
 
 // stripLeading is stripZeros for magnitudes whose length is already minimal by construction
@@ -125,7 +244,11 @@ func BigAddO(z, x, y *big.Int) *big.Int {
 func BigMul(z, x, y *big.Int) *big.Int {
 	mustBig(x)
 	mustBig(y)
-	bigMag[z] = opaque2("mul", len(bigMag[x])+len(bigMag[y]), x, y)
+	// a function of the operands, commutative (its value is not interpreted)
+	// (one result width, whatever the lengths of the byte strings that carry the operands)
+	m := vUFN("big_mul", mulW, padW(bigMag[x]), padW(bigMag[y]))
+	vAssume(vBytesEq(m, vUFN("big_mul", mulW, padW(bigMag[y]), padW(bigMag[x]))))
+	bigMag[z] = m
 	bigSet[z] = true
 	bigOpaque[z] = true
 	return z
@@ -139,18 +262,20 @@ func BigMod(z, x, y *big.Int) *big.Int {
 		bigSet[z] = true
 		bigOpaque[z] = false
 		bigNegative[z] = false
+		bigReduced[z] = true
 		return z
 	}
-	bigMag[z] = opaque2("mod", len(bigMag[y]), x, y)
+	bigMag[z] = vUFN("big_mod", len(bigMag[y]), padW(bigMag[x]), padW(bigMag[y]))
 	bigSet[z] = true
 	bigOpaque[z] = true
+	bigReduced[z] = true
 	return z
 }
 func BigExp(z, x, y, m *big.Int) *big.Int {
 	mustBig(x)
 	mustBig(y)
 	mustBig(m)
-	bigMag[z] = vFresh("big_exp", len(bigMag[m]))
+	bigMag[z] = vUFN("big_exp", len(bigMag[m]), padW(bigMag[x]), padW(bigMag[y]), padW(bigMag[m]))
 	bigSet[z] = true
 	bigOpaque[z] = true
 	return z
@@ -163,11 +288,23 @@ func BigModInverse(z, g, n *big.Int) *big.Int {
 	if BigSignS(g) == 0 {
 		return nil
 	}
-	bigMag[z] = vFresh("big_modinv", len(bigMag[n]))
+	if bigReduced[g] {
+		// on reduced residues inversion is an involution (and injective)
+		inv := vUF("perm_big_inv", len(bigMag[n]), padW(bigMag[g]), padW(bigMag[n]))
+		vAssume(vBytesEq(padW(vUF("perm_big_inv", len(bigMag[n]), padW(inv), padW(bigMag[n]))), padW(bigMag[g])))
+		bigMag[z] = inv
+		bigReduced[z] = true
+	} else {
+		bigMag[z] = vUFN("big_modinv", len(bigMag[n]), padW(bigMag[g]), padW(bigMag[n]))
+	}
 	bigSet[z] = true
 	bigOpaque[z] = true
+	bigZeroKnown[z] = 1
 	return z
 }
+
+// values known to lie in [0, n) for the modulus they were produced with
+var bigReduced = map[*big.Int]bool{}
 func BigSet(z, x *big.Int) *big.Int {
 	mustBig(x)
 	bigMag[z] = bigMag[x]
@@ -175,6 +312,7 @@ func BigSet(z, x *big.Int) *big.Int {
 	bigNegative[z] = bigNegative[x]
 	bigOpaque[z] = bigOpaque[x]
 	bigZeroKnown[z] = bigZeroKnown[x]
+	bigReduced[z] = bigReduced[x]
 	return z
 }
 
@@ -208,12 +346,20 @@ func BigSignS(z *big.Int) int {
 		// an arithmetic result may be zero, at most once per execution (retry loops stay bounded);
 		// the answer for one integer object is decided once and then kept
 		if bigZeroKnown[z] == 0 {
-			if zerosUsed < 1 && vFreshBool("big_iszero") {
+			for i := range zeroMemo {
+				if vSameTerm(zeroMemo[i].mag, bigMag[z]) {
+					bigZeroKnown[z] = zeroMemo[i].ans
+				}
+			}
+		}
+		if bigZeroKnown[z] == 0 {
+			if zerosUsed < 1 && vUFBool("big_iszero", padW(bigMag[z])) {
 				zerosUsed++
 				bigZeroKnown[z] = 2
 			} else {
 				bigZeroKnown[z] = 1
 			}
+			zeroMemo = append(zeroMemo, zeroMemoEntry{mag: bigMag[z], ans: bigZeroKnown[z]})
 		}
 		if bigZeroKnown[z] == 2 {
 			return 0
@@ -235,10 +381,11 @@ func BigCmpS(x, y *big.Int) int {
 	mustBig(x)
 	mustBig(y)
 	if bigOpaque[x] || bigOpaque[y] {
-		if vFreshBool("big_eq") {
+		// uninterpreted, but a function of the two values
+		if vUFBool("big_eq", padW(bigMag[x]), padW(bigMag[y])) {
 			return 0
 		}
-		if vFreshBool("big_lt") {
+		if vUFBool("big_lt", padW(bigMag[x]), padW(bigMag[y])) {
 			return -1
 		}
 		return 1
@@ -311,6 +458,9 @@ func GroupHashToField(u []big.Int, b []byte, e interface{}, order *big.Int, l ui
 		bigMag[z] = vUF("hash_to_field", len(bigMag[order]), b, dst, h, []byte{byte(l)}, bigMag[order])
 		bigSet[z] = true
 		bigOpaque[z] = true
+		// hash_to_field yields a reduced element; the value 0 (probability 2^-bits) is excluded
+		bigReduced[z] = true
+		bigZeroKnown[z] = 1
 	}
 }
 
@@ -323,4 +473,76 @@ func EcdsaVerifyAlways(pub interface{}, hash []byte, r, s *big.Int) bool {
 	mustBig(r)
 	mustBig(s)
 	return true
+}
+
+// group "c12sign": ideal signatures for the fork's Sign / Verify, keyed by the public point, which
+// only come out valid when the private scalar belongs to the public point: either the pair came
+// from ScalarBaseMult, or the point is such a point times one factor f and the scalar is
+// (d * f) mod n  (since ((d f) mod n) G = f (d G)).
+type fsigEntry struct{ x, y, digest, r, s []byte }
+
+var fsigLog []fsigEntry
+
+func keyPairConsistent(priv *ecdsa.PrivateKey) bool {
+	mustBig(priv.D)
+	mustBig(priv.X)
+	mustBig(priv.Y)
+	d := bigMag[priv.D]
+	for i := range sbmLog {
+		e := sbmLog[i]
+		if vSameTerm(e.x, bigMag[priv.X]) && vSameTerm(e.y, bigMag[priv.Y]) {
+			return vSameTerm(e.k, d) || vSameTerm(stripZeros(e.k), stripZeros(d))
+		}
+	}
+	p := ecLookup(priv.X, priv.Y)
+	if p.nf != 1 {
+		return false
+	}
+	n := bigMag[priv.Curve.Params().N]
+	for i := range sbmLog {
+		e := sbmLog[i]
+		if vSameTerm(e.x, p.bx) && vSameTerm(e.y, p.by) {
+			w := mulW
+			if vSameTerm(d, vUFN("big_mod", len(n), padW(vUFN("big_mul", w, padW(e.k), padW(p.f1))), padW(n))) {
+				return true
+			}
+			if vSameTerm(d, vUFN("big_mod", len(n), padW(vUFN("big_mul", w, padW(p.f1), padW(e.k))), padW(n))) {
+				return true
+			}
+		}
+	}
+	return false
+}
+
+func ForkSign(rnd io.Reader, priv *ecdsa.PrivateKey, hash []byte) (*big.Int, *big.Int, error) {
+	ent := make([]byte, 32)
+	if _, err := io.ReadFull(rnd, ent); err != nil {
+		return nil, nil, err
+	}
+	bl := len(bigMag[priv.Curve.Params().N])
+	r, s := vFresh("ecdsa_r", bl), vFresh("ecdsa_s", bl)
+	if keyPairConsistent(priv) {
+		fsigLog = append(fsigLog, fsigEntry{x: bigMag[priv.X], y: bigMag[priv.Y], digest: clone(hash), r: r, s: s})
+	}
+	return newOpaque(r), newOpaque(s), nil
+}
+
+func ForkVerify(pub *ecdsa.PublicKey, hash []byte, r, s *big.Int) bool {
+	mustBig(r)
+	mustBig(s)
+	for i := range fsigLog {
+		e := fsigLog[i]
+		if vBytesEq(e.x, bigMag[pub.X]) {
+			if vBytesEq(e.y, bigMag[pub.Y]) {
+				if vBytesEq(e.digest, hash) {
+					if vBytesEq(e.r, bigMag[r]) {
+						if vBytesEq(e.s, bigMag[s]) {
+							return true
+						}
+					}
+				}
+			}
+		}
+	}
+	return false
 }
